@@ -703,8 +703,16 @@ func (db *DBStore) applyElements(cau consensus.ApplyUpdate) {
 		if fced.Created && fced.Resolved {
 			continue
 		} else if fced.Resolved {
+			// the expiration entry is filed under the window end of the contract
+			// as it is stored. If the block also revised the contract, the diff
+			// may carry a different window end
+			windowEnd := fce.FileContract.WindowEnd
+			var stored types.FileContractElement
+			if db.bucket(bFileContractElements).get(fce.ID[:], &stored) {
+				windowEnd = stored.FileContract.WindowEnd
+			}
 			db.deleteFileContractElement(fce.ID)
-			db.deleteFileContractExpiration(fce.ID, fce.FileContract.WindowEnd)
+			db.deleteFileContractExpiration(fce.ID, windowEnd)
 		} else if fced.Revision != nil {
 			rev := fce.Share()
 			rev.FileContract = *fced.Revision
@@ -720,13 +728,43 @@ func (db *DBStore) applyElements(cau consensus.ApplyUpdate) {
 	}
 }
 
-func (db *DBStore) revertElements(cru consensus.RevertUpdate) {
+// supplementedFileContract returns the contract with the given ID as it was
+// before the best block at the given height was applied, taken from the
+// supplement stored with that block.
+func (db *DBStore) supplementedFileContract(height uint64, id types.FileContractID) (types.FileContract, bool) {
+	index, ok := db.BestIndex(height)
+	if !ok {
+		return types.FileContract{}, false
+	}
+	_, _, bs, ok := db.getBlock(index.ID)
+	if !ok || bs == nil {
+		return types.FileContract{}, false
+	}
+	for _, ts := range bs.Transactions {
+		for _, fce := range ts.RevisedFileContracts {
+			if fce.ID == id {
+				return fce.FileContract, true
+			}
+		}
+	}
+	return types.FileContract{}, false
+}
+
+func (db *DBStore) revertElements(height uint64, cru consensus.RevertUpdate) {
 	for _, fced := range cru.FileContractElementDiffs() {
 		fce := &fced.FileContractElement
 		if fced.Created && fced.Resolved {
 			continue
 		} else if fced.Resolved {
 			// contract no longer resolved; restore it
+			if fced.Revision != nil {
+				// the block revised the contract before resolving it, so the
+				// diff carries the revision; the contract as it was before
+				// the block is recorded in the block's supplement
+				if fc, ok := db.supplementedFileContract(height, fce.ID); ok {
+					fce.FileContract = fc
+				}
+			}
 			db.putFileContractElement(fce.Share())
 			db.putFileContractExpiration(fce.ID, fce.FileContract.WindowEnd, false)
 		} else if fced.Revision != nil {
@@ -944,7 +982,7 @@ func (db *DBStore) ApplyBlock(s consensus.State, cau consensus.ApplyUpdate) {
 // RevertBlock implements Store.
 func (db *DBStore) RevertBlock(s consensus.State, cru consensus.RevertUpdate) {
 	if s.Index.Height <= db.n.HardforkV2.RequireHeight {
-		db.revertElements(cru)
+		db.revertElements(s.Index.Height+1, cru)
 	}
 	db.revertState(s)
 	if db.shouldFlush() {
